@@ -20,6 +20,7 @@
    of the statistics, names/keys of validators, logging, DB errors.
    A Go panic is [None]. *)
 From Coq Require Export List ZArith Bool.
+From Coq Require Import Uint63.
 Export ListNotations.
 Open Scope Z_scope.
 
@@ -379,8 +380,6 @@ Definition load_dlgs (s : state) (ac : acct) : option acct :=
               then Some (mkA (a_dbal ac) h true (a_ddirty ac)) else None
        end.
 
-Fixpoint srem_all := srem.
-
 (* stateObject.UpdateDelegationTo + AddDelegationBalance via StateDB.UpdateDelegator *)
 Definition update_delegator (s : state) (d a delta : Z) (del : bool) : option state :=
   match aget (accts s) d with
@@ -665,18 +664,16 @@ Definition copy (s : state) : option state :=
   end.
 
 (* GetValidatorsForUpdate: the inverted Empty() reloads the index from the trie
-   whenever the in-memory index is NOT empty; then every listed address is
-   fetched (a missing one panics) *)
-Fixpoint list_vals (s : state) (l : list Z) : option state :=
+   whenever the in-memory index is NOT empty; then every listed address that is
+   not cached is fetched with getValidator (a failed fetch yields a typed nil
+   inside a non-nil interface: no panic here) *)
+Fixpoint list_vals (s : state) (l : list Z) : state :=
   match l with
-  | [] => Some s
+  | [] => s
   | a :: r =>
     match aget (vmap s) a with
     | Some _ => list_vals s r
-    | None => match get_validator s a with
-              | (_, None) => None
-              | (s1, Some _) => list_vals s1 r
-              end
+    | None => list_vals (fst (get_validator s a)) r
     end
   end.
 Definition list_for_update (s : state) : option state :=
@@ -684,7 +681,7 @@ Definition list_for_update (s : state) : option state :=
             | [] => s
             | _ => match t_index s with Some l => w_vindex s l | None => s end
             end in
-  list_vals s1 (vindex s1).
+  Some (list_vals s1 (vindex s1)).
 
 (* ---- operations ---------------------------------------------------------- *)
 
@@ -732,6 +729,21 @@ Fixpoint run (s : state) (l : list op) : option state :=
   | o :: r => match step s o with None => None | Some s' => run s' r end
   end.
 
+(* value-level view of a validator: scalars + delegation list *)
+Definition xval := (val * list dfrom)%type.
+Definition norm (v : val) : val := set_deleted (set_view v 0%nat 0%nat) false.
+Fixpoint dget (l : list dfrom) (d : Z) : option dfrom :=
+  match l with
+  | [] => None
+  | e :: r => if Z.eqb (d_addr e) d then Some e else dget r d
+  end.
+Fixpoint strip (l : list (option dfrom)) : option (list dfrom) :=
+  match l with
+  | [] => Some []
+  | None :: _ => None
+  | Some e :: r => match strip r with Some r' => Some (e :: r') | None => None end
+  end.
+
 (* ---- the property, executable -------------------------------------------- *)
 
 (* what GetValidatorByMainAddr would return, without caching *)
@@ -751,15 +763,29 @@ Definition universe (s : state) : list Z :=
 Definition live (s : state) : list (val * list (option dfrom)) :=
   flat_map (fun a => match peek s a with Some x => [x] | None => [] end) (universe s).
 
-(* recomputation of the statistics from the records (unclamped, no wrap) *)
-Definition k_plus (k : kstat) (v : val) : kstat :=
-  if Z.eqb (v_status v) 1
-  then mkK (on_stake k + v_stake v) (on_token k + v_token v) (on_count k + 1) (off_stake k) (off_token k) (off_count k)
-  else mkK (on_stake k) (on_token k) (on_count k) (off_stake k + v_stake v) (off_token k + v_token v) (off_count k + 1).
-Definition recompute (l : list (val * list (option dfrom))) : stat :=
-  fold_left (fun st x =>
-    let v := fst x in
-    match stat_app (fun k => k_plus k v) st (v_role v) with Some st' => st' | None => st end) l stat_zero.
+(* recomputation of the statistics from the records: plain sums; the uint64
+   counters are compared modulo 2^64 (they are exact as long as there are fewer
+   than 2^64 validators) *)
+Definition kplus (a b : kstat) : kstat :=
+  mkK (on_stake a + on_stake b) (on_token a + on_token b) (on_count a + on_count b)
+      (off_stake a + off_stake b) (off_token a + off_token b) (off_count a + off_count b).
+Definition k_contrib (v : val) : kstat :=
+  if Z.eqb (v_status v) 1 then mkK (v_stake v) (v_token v) 1 0 0 0 else mkK 0 0 0 (v_stake v) (v_token v) 1.
+Definition contrib (v : val) : stat :=
+  let k := k_contrib v in
+  if Z.eqb (v_role v) 1 then mkSt k k kzero k kzero kzero
+  else if Z.eqb (v_role v) 2 then mkSt k k kzero kzero k kzero
+  else if Z.eqb (v_role v) 3 then mkSt k kzero k kzero kzero k
+  else stat_zero.
+Definition stat_plus (a b : stat) : stat :=
+  mkSt (kplus (k0 a) (k0 b)) (kplus (k1 a) (k1 b)) (kplus (k2 a) (k2 b))
+       (kplus (r1 a) (r1 b)) (kplus (r2 a) (r2 b)) (kplus (r3 a) (r3 b)).
+Definition total (l : list val) : stat := fold_right (fun v acc => stat_plus (contrib v) acc) stat_zero l.
+Definition kwrap (k : kstat) : kstat :=
+  mkK (on_stake k) (on_token k) (wrap64 (on_count k)) (off_stake k) (off_token k) (wrap64 (off_count k)).
+Definition wrap_stat (st : stat) : stat :=
+  mkSt (kwrap (k0 st)) (kwrap (k1 st)) (kwrap (k2 st)) (kwrap (r1 st)) (kwrap (r2 st)) (kwrap (r3 st)).
+Definition recompute (l : list (val * list (option dfrom))) : stat := wrap_stat (total (map fst l)).
 
 Definition k_eqb (a b : kstat) : bool :=
   Z.eqb (on_stake a) (on_stake b) && Z.eqb (on_token a) (on_token b) && Z.eqb (on_count a) (on_count b)
@@ -796,14 +822,13 @@ Definition val_units (x : val * list (option dfrom)) : bool :=
 Definition dl_find (l : list (option dfrom)) (d : Z) : option dfrom :=
   fold_right (fun x acc => match x with Some e => if Z.eqb (d_addr e) d then Some e else acc | None => acc end) None l.
 Definition acct_links (s : state) (d : Z) (ac : acct) : bool :=
-  (* every listed validator exists and has a delegation from d; balance = sum *)
+  (* every listed validator exists and has a delegation from d; the balance is
+     the sum of what d has delegated to the existing validators *)
   forallb (fun a => match peek s a with
                     | Some (_, l) => match dl_find l d with Some _ => true | None => false end
                     | None => false end) (a_hash ac)
   && Z.eqb (a_dbal ac)
-       (fold_right (fun a acc => match peek s a with
-                                 | Some (_, l) => match dl_find l d with Some e => d_token e + acc | None => acc end
-                                 | None => acc end) 0 (a_hash ac)).
+       (fold_right (fun x acc => match dl_find (snd x) d with Some e => d_token e + acc | None => acc end) 0 (live s)).
 Definition val_links (s : state) (x : val * list (option dfrom)) : bool :=
   let '(v, l) := x in
   forallb (fun o => match o with
@@ -824,9 +849,11 @@ Definition inv_all (s : state) : bool :=
 
 (* ---- correspondence runner ----------------------------------------------- *)
 
-Definition hmod : Z := 2305843009213693951.   (* 2^61 - 1 *)
-Definition hstep (h x : Z) : Z := (h * 1000003 + (x mod hmod) + 7) mod hmod.
-Definition hash_list (l : list Z) : Z := fold_left hstep l 17.
+(* hash in primitive 63-bit integers (arithmetic modulo 2^63; the multiplier is
+   odd, so any single differing element changes the hash) *)
+Definition hstep (h : Uint63.int) (x : Z) : Uint63.int :=
+  Uint63.add (Uint63.add (Uint63.mul h 1000003%uint63) (Uint63.of_Z x)) 7%uint63.
+Definition hash_list (l : list Z) : Z := Uint63.to_Z (fold_left hstep l 17%uint63).
 
 Definition b2z (b : bool) : Z := if b then 1 else 0.
 Definition nz (n : nat) : Z := Z.of_nat n.
@@ -850,7 +877,8 @@ Definition obs (uv ua : list Z) (s : state) : list Z :=
                         end) uv
   ++ flat_map (fun a => match aget (t_vals s) a with
                         | None => [0]
-                        | Some p => 1 :: obs_val (p_v p) ++ nz (length (p_dl p)) :: obs_dl (p_dl p)
+                        | Some p => if has_nil (p_dl p) then [2]   (* present, does not decode *)
+                                    else 1 :: obs_val (p_v p) ++ nz (length (p_dl p)) :: obs_dl (p_dl p)
                         end) uv
   ++ (match t_index s with None => [-1] | Some l => nz (length l) :: l end)
   ++ obs_stat (t_stat s)
